@@ -74,6 +74,7 @@ type c11PathItem struct {
 	Path       string     `json:"path"`
 	Vars       []c11Param `json:"vars,omitempty"`
 	VarsAtPath bool       `json:"vars_at_path,omitempty"` // declared once on the path item instead of per operation
+	Shared     []c11Param `json:"shared,omitempty"`       // header/query parameters declared on the path item: they apply to every operation
 	Ops        []c11Op    `json:"ops"`
 }
 
@@ -273,6 +274,19 @@ func c11GenDoc(t *rapid.T, v int) c11Doc {
 		}
 		seenPath[strings.Join(norm, "/")] = true
 		pi.VarsAtPath = len(pi.Vars) > 0 && rapid.IntRange(0, 2).Draw(t, "varsatpath") == 0
+		// parameters shared by all operations of the path (OpenAPI: path-item level "parameters")
+		nsh := rapid.IntRange(0, 5).Draw(t, "nshared")
+		if rapid.Bool().Draw(t, "noshared") {
+			nsh = 0
+		}
+		for _, sn := range c12Distinct(t, []string{"X-Tenant", "X-Region", "fields", "page", "per_page", "lang"}, nsh, "sharednames") {
+			in := "query"
+			if strings.HasPrefix(sn, "X-") {
+				in = "header"
+			}
+			pt := pick(t, []c11PrimT{{"string", ""}, {"integer", ""}}, "sharedtype")
+			pi.Shared = append(pi.Shared, c11Param{Name: sn, In: in, Type: pt.typ, Format: pt.format, Required: rapid.Bool().Draw(t, "sharedreq")})
+		}
 		nops := rapid.IntRange(1, 3).Draw(t, "nops")
 		for _, m := range c12Distinct(t, []string{"get", "put", "post", "delete", "patch"}, nops, "methods") {
 			op := c11Op{Method: m}
@@ -412,10 +426,15 @@ func (d c11Doc) tree(v int) c12Obj {
 	paths := c12Obj{}
 	for _, pi := range d.Paths {
 		item := c12Obj{}
-		if pi.VarsAtPath {
+		if pi.VarsAtPath || len(pi.Shared) > 0 {
 			var ps []interface{}
-			for _, pv := range pi.Vars {
-				ps = append(ps, param(pv))
+			if pi.VarsAtPath {
+				for _, pv := range pi.Vars {
+					ps = append(ps, param(pv))
+				}
+			}
+			for _, sp := range pi.Shared {
+				ps = append(ps, param(sp))
 			}
 			item["parameters"] = ps
 		}
@@ -628,7 +647,7 @@ func (d c11Doc) Want() c11Want {
 				cl, bits := c11OASClass(pv.Type, pv.Format)
 				e.Vars = append(e.Vars, c11WParam{Name: pv.Name, Class: cl, Bits: bits})
 			}
-			for _, p := range op.Params {
+			for _, p := range append(append([]c11Param{}, pi.Shared...), op.Params...) {
 				cl, bits := c11OASClass(p.Type, p.Format)
 				wp := c11WParam{Name: p.Name, Class: cl, Bits: bits, Opt: !p.Required}
 				if p.In == "query" {
@@ -744,6 +763,15 @@ func c11DocClasses(d c11Doc) (classes []string, nonTrivial bool) {
 		}
 		if pi.VarsAtPath {
 			cl["path_level_parameters"] = true
+		}
+		if n := len(pi.Shared); n > 0 {
+			cl["path_level_shared_parameters"] = true
+			if pi.VarsAtPath {
+				n += len(pi.Vars)
+			}
+			if n >= 3 && len(pi.Ops) >= 2 {
+				cl["path_level_parameters_ge3_and_ops_ge2"] = true
+			}
 		}
 		for _, op := range pi.Ops {
 			nops++
